@@ -113,7 +113,11 @@ def replay(job):
             # the REPL waits for more input (an unbalanced statement): close it with an empty line
             alive, text2 = repl.line("")
             text += text2
-        is_err = "error]" in text or "Error:" in text
+        is_err = "[evaluation error]" in text or "[parse error]" in text or "Error:" in text
+        # "[output error]": the REPL refuses to *record* an output that is a function with unbound names (the statement
+        # itself evaluated); the in-process session does not model that refusal, so no status is compared there
+        if "[output error]" in text:
+            continue
         if is_err != (status[k] == "err"):
             viols.append(("repl-status-differs", "a statement typed into the REPL fails / succeeds differently from the same statement in the in-process session", dict(desc, at_statement=k, statement=src, repl_printed=text[-400:])))
     data_names = [b["name"] for b in bound if b["data"]]
